@@ -85,6 +85,7 @@ def addTrivialLeg (a : Arr α) (axis : Int) (label : Label) (qconj : Int) : Exce
 
 /-- basic `__getitem__` with integers only -/
 def getItemInt [Zero α] (a : Arr α) (inds : List Int) : Except Err α := do
+  if inds.length > a.rank then throw .indexError                      -- `_pre_indexing`: too many indices
   let pos ← (a.lcs.zip inds).mapM (fun li => qindexOf li.1 li.2)
   let q := pos.map (·.1)
   if blockChargeOf a.mods a.lcs q ≠ a.qtotal then return 0          -- IndexError of get_block is caught
